@@ -173,6 +173,9 @@ class World:
         self.probe = np.array([O.fl(x) for x in case['probe']])
         self.fp, self.meta_snap, self.state = [], [], []
         self.last_operand = None
+        self.triggers = []      # (object, names of the hidden attributes written) of the current step
+        self.hidden_tags = []
+        self.followups = []
         self.tmp = tempfile.mkdtemp(prefix='c19_', dir=os.environ.get('TMPDIR', '/tmp'))
         self.files = []
         self.reg0 = registry_state()
@@ -542,7 +545,15 @@ class World:
 
     def do_query(self, st):
         pred = None
-        if st['m'] in BAND_QUERIES:
+        if st['m'] == 'auto':
+            # choose the object first, then a query its class offers
+            o = self.sel(st['o'])
+            if o is None:
+                return None, None, None
+            pool = {'bandpass': ANY_QUERIES + BAND_QUERIES, 'reddening': LAW_QUERIES * 3 + ANY_QUERIES}.get(self.kinds[o], ANY_QUERIES)
+            st = dict(st, m=pool[st.get('mi', 0) % len(pool)])
+            pred = lambda i: i == o
+        elif st['m'] in BAND_QUERIES:
             pred = lambda i: self.kinds[i] == 'bandpass'
         elif st['m'] in LAW_QUERIES:
             pred = lambda i: self.kinds[i] == 'reddening'
@@ -788,14 +799,118 @@ class World:
                                   'metadata of object #%d changed by %s of another object' % (i, d), k)
             sta = None if i in self.dead else attr_state(self.objs[i])
             if i < n_before and sta != self.state[i] and i not in allow_s and i not in allow_m:
-                names = state_diff(self.state[i], sta)
-                self.fail('%s:hidden_state_written:%s' % (d, type(self.objs[i]).__name__),
-                          'attributes %s of object #%d (%s) were written by %s, which is not a documented mutator of it'
-                          % (names, i, self.kinds[i], conc.get('m', d)), k)
+                # hidden state of a library object (a memo, a cache, a bookkeeping attribute) was written by a call
+                # that is not a documented mutator of it.  That alone violates nothing the property lists: it is a
+                # *trigger* for the directed follow-up, which tries to turn it into an observable difference
+                self.triggers.append((i, state_diff(self.state[i], sta)))
             self.fp[i], self.meta_snap[i], self.state[i] = fp, mc, sta
         if info.get('twice') is False:
             self.fail('%s:evaluated_twice_differs' % d, 'the same call twice gave different values', k)
         return rec
+
+    # ---------------------------------------------------------------- directed follow-up after a hidden write
+    def answer(self, ob, m, grid, ebv):
+        """canonical bytes of one query's answer (or its error class)"""
+        def f():
+            if m == '__call__':
+                r = ob(grid)
+            elif m == 'extinction_curve':
+                c = ob.extinction_curve(ebv, wavelengths=grid)
+                return np.concatenate([np.asarray(c.model.points[0], dtype=float),
+                                       np.asarray(c.model.lookup_table, dtype=float)]).tobytes()
+            elif m == 'integrate':
+                r = ob.integrate(wavelengths=grid, integration_type='trapezoid')
+            else:
+                r = getattr(ob, m)(wavelengths=grid)
+            return np.asarray(getattr(r, 'value', r), dtype=float).tobytes()
+        r = self.guarded(f)
+        return ('ok', r['ok']) if 'ok' in r else ('err', r['err'])
+
+    def follow_up(self, k, st, conc, i, names):
+        """Object #i had hidden state written by step k.  Try to make that observable: the same query again, the
+        query with related arguments (same length and end points with other interior points, reversed order, the
+        same numbers in another unit, another scalar), each answer compared bit for bit with the answer of a
+        structurally identical FRESH object that never saw the earlier queries (rebuilt by replaying only the
+        constructing / documented-mutator steps of the history in a new world); finally every live object is
+        re-sampled.  Only an observable difference is a failure."""
+        import astropy.units as u
+        cls = type(self.objs[i]).__name__
+        self.hidden_tags.append('hidden_write:' + cls)
+        fresh_world = World(self.case)
+        try:
+            for j, sj in enumerate(self.case['steps'][:k + 1]):
+                if sj['do'] in BUILDING_STEPS:
+                    fresh_world.run_step(j, sj)
+            if len(fresh_world.objs) <= i or fresh_world.kinds[i] != self.kinds[i]:
+                return              # the object cannot be rebuilt without the skipped calls: nothing to compare with
+            live = self.objs[i]
+            # grids: the one the triggering call used, and a pair inside the object's own range
+            grids = []
+            g0 = None
+            if isinstance(conc.get('w'), dict):
+                g0 = arr_values(self.arrs[conc['w']['w']]).copy()
+                if self.desc[conc['w']['w']]['container'] in ('q_int', 'q_other'):
+                    g0 = self.arrs[conc['w']['w']].to_value(u.AA)
+            elif conc.get('do') == 'sample':
+                g0 = np.asarray(self.arrs[conc['w']].to_value(u.AA) if hasattr(self.arrs[conc['w']], 'unit')
+                                else self.arrs[conc['w']], dtype=float).copy()
+            ws = self.guarded(lambda: None if live.waveset is None else live.waveset.value)
+            lo, hi = (float(np.min(ws['ok'])), float(np.max(ws['ok']))) if ws.get('ok') is not None else (1200.0, 8800.0)
+            t = np.linspace(0.0, 1.0, 6)
+            g1 = lo + (hi - lo) * t
+            g2 = lo + (hi - lo) * t ** 2            # same length, same end points, other interior points
+            g2[-1] = g1[-1]
+            if g0 is not None:
+                grids += [('same', g0), ('same again', g0)]
+                if len(g0) >= 3:
+                    gi = np.array(g0, dtype=float)
+                    gi[1:-1] = gi[0] + (gi[1:-1] - gi[0]) * 0.75 if gi[-1] != gi[0] else gi[1:-1]
+                    grids.append(('same ends, other interior', gi))
+                grids += [('reversed', g0[::-1].copy()), ('in nm', (g0 / 10.0) * u.nm)]
+            else:
+                grids += [('default', None), ('default again', None)]
+            grids += [('linear', g1), ('same ends, other interior (quadratic)', g2), ('linear reversed', g1[::-1].copy()),
+                      ('linear in nm', (g1 / 10.0) * u.nm)]
+            methods = ['__call__', 'avgwave', 'integrate']
+            if self.kinds[i] == 'bandpass':
+                methods += ['tpeak', 'equivwidth']
+            if self.kinds[i] == 'reddening':
+                methods += ['extinction_curve']
+            m0 = conc.get('m') if conc.get('do') == 'query' else None
+            if m0 and m0 not in methods:
+                methods.append(m0)
+            ebv0 = O.fl(st.get('ebv', '1/4'))
+            done = []
+            for m in methods:
+                for e in ([ebv0, ebv0 + 0.25] if m == 'extinction_curve' else [None]):
+                    for gname, g in grids:
+                        if m == '__call__' and g is None:
+                            continue
+                        a_live = self.answer(live, m, g, e)
+                        a_fresh = self.answer(copy.deepcopy(fresh_world.objs[i]), m, g, e)
+                        done.append({'m': m, 'grid': gname, 'ebv': e})
+                        if a_live != a_fresh:
+                            self.fail('%s:result_depends_on_earlier_call:%s' % (m, cls),
+                                      'after step %d (%s) wrote %s on object #%d, %s(%s%s) on it differs from the answer '
+                                      'of a fresh identical object that never saw the earlier calls (%s vs %s)'
+                                      % (k, conc.get('m', conc['do']), names, i, m, gname,
+                                         '' if e is None else ', E=%g' % e, a_live[0], a_fresh[0]), k)
+                            self.followups.append({'step': k, 'object': i, 'queries': done})
+                            return
+            self.followups.append({'step': k, 'object': i, 'queries': len(done)})
+        finally:
+            fresh_world.close()
+            np.seterr(**DEF_ERR)
+
+    def after_follow_up(self, k, conc):
+        """every live object must still sample as before the follow-up queries"""
+        for i in range(len(self.objs)):
+            fp, _ = self.fingerprint(i)
+            if fp != self.fp[i]:
+                self.fail('%s:followup:live_object_changed' % conc['do'],
+                          'object #%d (%s) samples differently after the follow-up queries of step %d' % (i, self.kinds[i], k), k)
+            self.fp[i] = fp
+            self.state[i] = None if i in self.dead else attr_state(self.objs[i])
 
     def shares_array(self, i, j):
         from synphot.models import Empirical1D
@@ -864,6 +979,9 @@ class World:
 BAND_QUERIES = ('tpeak', 'wpeak', 'equivwidth', 'rectwidth', 'efficiency', 'rmswidth', 'photbw')
 ANY_QUERIES = ('avgwave', 'pivot', 'barlam')
 LAW_QUERIES = ('extinction_curve',)
+# the steps that build objects or are documented mutators: replayed to obtain a fresh identical object
+BUILDING_STEPS = ('new_empirical', 'new_analytic', 'new_blackbody', 'arith', 'rmul', 'normalize', 'taper', 'observation',
+                  'set_z', 'set_z_bad', 'set_ztype', 'force_extrap', 'set_warnings', 'set_meta')
 
 
 def impl_call(case):
@@ -885,11 +1003,16 @@ def impl_call(case):
             # property of the object graph, which no call rewires (objects' `_model` is never re-assigned;
             # the bit-comparison below would catch it)
             allowed = w.allowed_before(conc, info or {})
+            w.triggers = []
             rec = w.observe(k, conc, out, info or {}, allowed, n_before, last=(k == len(case['steps']) - 1))
             w.check_result_meta(k, conc, out, info or {}, metas_before)
+            if w.triggers and not case.get('_fresh'):
+                for i, names in w.triggers[:3]:
+                    w.follow_up(k, st, conc, i, names)
+                w.after_follow_up(k, conc)
             rec['out'] = {kk: v for kk, v in out.items() if kk in ('ok', 'err')}
             steps.append({'conc': conc, 'rec': rec, 'msg': out.get('msg')})
-        return {'ok': steps, 'failures': w.failures, 'scale': w.scale}
+        return {'ok': steps, 'failures': w.failures, 'scale': w.scale, 'hidden': w.hidden_tags, 'followups': w.followups}
     finally:
         w.close()
 
@@ -1084,7 +1207,7 @@ def gen_step(rng, k):
         return zinit(rng, {'do': 'new_empirical', 'kind': kind, 'x': S(rng), 'y': S(rng), 'keep_neg': rng.random() < 0.35,
                            'meta': S(rng) if rng.random() < 0.5 else None, 'fill0': rng.random() < 0.4})
     if r < 0.10:
-        return zinit(rng, {'do': 'new_empirical', 'kind': rng.choice(['source', 'source', 'bandpass', 'bandpass', 'reddening']),
+        return zinit(rng, {'do': 'new_empirical', 'kind': rng.choice(['source', 'source', 'bandpass', 'bandpass', 'reddening', 'reddening']),
                            'x': S(rng), 'y': S(rng), 'keep_neg': rng.random() < 0.35,
                            'meta': S(rng) if rng.random() < 0.5 else None, 'fill0': rng.random() < 0.4})
     if r < 0.19:
@@ -1118,7 +1241,7 @@ def gen_step(rng, k):
     if r < 0.74:
         return {'do': 'integrate', 'o': S(rng), 'w': opt_w(rng), 'itype': rng.choice(['default', 'trapezoid', 'trapezoid', 'analytical', 'simpson'])}
     if r < 0.80:
-        return {'do': 'query', 'o': S(rng), 'w': opt_w(rng), 'm': rng.choice(ANY_QUERIES + ANY_QUERIES + BAND_QUERIES + LAW_QUERIES + LAW_QUERIES),
+        return {'do': 'query', 'o': S(rng), 'w': opt_w(rng), 'm': rng.choice(('auto',) * 12 + ANY_QUERIES + BAND_QUERIES + LAW_QUERIES), 'mi': S(rng),
                 'ebv': q(rng.choice([F(1, 4), F(1, 2), F(-1, 4), F(0)]))}
     if r < 0.86:
         return {'do': 'to_fits', 'o': S(rng), 'w': opt_w(rng, 0.3), 'ext': S(rng) if rng.random() < 0.7 else None,
@@ -1150,6 +1273,11 @@ def follow_ups(rng, st):
                                {'do': 'integrate', 'o': -1, 'w': S(rng), 'itype': 'trapezoid'},
                                {'do': 'query', 'o': -1, 'w': S(rng), 'm': 'avgwave'},
                                {'do': 'arith', 'op': 'mul', 'a': -1, 'b': {'scalar': 'float', 'v': '2'}}]))
+    if st['do'] == 'new_empirical' and st['kind'] == 'reddening' and rng.random() < 0.7:
+        # queries on the new law: extinction curves on one or two grids
+        for _ in range(rng.choice([1, 2])):
+            out.append({'do': 'query', 'o': -1, 'w': opt_w(rng, 0.6), 'm': 'extinction_curve',
+                        'ebv': q(rng.choice([F(1, 4), F(1, 2), F(-1, 4)]))})
     if st['do'] == 'new_empirical' and st['keep_neg'] and rng.random() < 0.4:
         # a second object on the same caller-owned arrays, this time with negative values removed
         out.append(dict(st, keep_neg=False, meta=None))
@@ -1205,13 +1333,20 @@ def run_histories(rep, cases):
         tags = ['len:%02d' % (10 * (len(done) // 10))]
         for s in done:
             tags.append('call:' + s['conc']['do'])
+            if s['conc']['do'] == 'query':
+                tags.append('query:' + s['conc'].get('m', '?'))
             tags.append('outcome:' + ('raised' if 'err' in s['rec']['out'] else 'returned'))
+        tags += o.get('hidden', [])
         rep.count({k: v for k, v in c.items() if k != 'const'}, nontrivial=len(done) >= 2, tags=tags)
         r = compare(c, o, m)
         if r:
             rep.mismatch('heap_history', r, c, {'steps': [s and {'conc': s['conc'], 'out': s['rec']['out']} for s in o['ok']]}, None)
         for sig, msg, k in o['failures']:
-            rep.oracle_fail(sig, 'step %d: %s' % (k, msg), c, {'step': k, 'call': c['steps'][k]})
+            # the replay is the history up to the failing step; the directed follow-up queries it triggers (listed
+            # in the outcome) are re-derived deterministically when the replay runs
+            rep.oracle_fail(sig, 'step %d: %s' % (k, msg), dict(c, steps=c['steps'][:k + 1]),
+                            {'step': k, 'call': c['steps'][k],
+                             'followup': [f for f in o.get('followups', []) if f['step'] == k]})
     return impl, model
 
 
